@@ -182,6 +182,12 @@ class Ctx:
     def bad(self, part, case, why, signature="", **kw):
         rep = {"kind": "property-fails-on-implementation", "part": part, "case": case, "why": why}
         rep.update(kw)
+        # a generated input lives in the work directory, which the next run clears: carry it in the replay file
+        inp = case.get("input") if isinstance(case, dict) else None
+        if inp and inp.startswith(common.BUILD) and os.path.exists(inp) and os.path.getsize(inp) < 300000 and \
+                not (signature and self.chk.known_match(signature)) and len(self.chk.violations) < 5:
+            import base64
+            rep["input_pdf_base64"] = base64.b64encode(open(inp, "rb").read()).decode()
         self.chk.violation(rep, signature=signature)
 
 
@@ -827,11 +833,17 @@ def run(chk):
 
 
 def replay(chk, rep):
-    print(json.dumps(rep, indent=1)[:6000])
+    """re-run exactly the recorded case: in-process cases through the driver and the extracted model/specification,
+    CLI cases through the real binary (the generated input is carried in the replay file)"""
+    shown = dict(rep)
+    shown.pop("input_pdf_base64", None)
+    print(json.dumps(shown, indent=1)[:6000])
     case = rep.get("case", {})
     drv = os.path.join(common.DRV, "drv")
     runner = os.path.join(common.EXTRACT, "model_runner")
     line = None
+    if not isinstance(case, dict):
+        return 0
     if "real" in case:
         line = "jreal " + hexs(case["real"].encode("latin-1"))
     elif "string_bytes" in case:
@@ -845,6 +857,38 @@ def replay(chk, rep):
         m = common.run_lines(runner, [line])[0]
         out = unhex(a) if re.fullmatch(r"[0-9a-f]+", a) else b""
         v = common.run_lines(runner, ["jvalid " + hexs(out)])[0]
-        print("replayed: %s\n implementation: %r\n model (pinned fixed): %s\n json_verdict(implementation output) = %s, python = %s" % (line[:300], out[:300], m[:300], v, strict_loads(out)[0]))
-        return 0 if v == "0" else 1
+        pv, pval = strict_loads(out)
+        print("replayed: %s\n implementation: %r\n model (pinned fixed): %s\n json_verdict(implementation output) = %s, python = %s" % (line[:300], out[:300], m[:300], v, pv))
+        if re.fullmatch(r"[0-9a-f]+", a) and v == "0" and line.startswith(("jstr", "jname")):
+            imp = common.run_lines(drv, ["jimp " + a])[0]
+            print(" re-imported: %s" % imp[:200])
+        return 0 if (v == "0" and a in m.split(" ")) else 1
+    if "argv" in case or "generation1" in case:
+        import base64, shutil, tempfile
+        wd = tempfile.mkdtemp(prefix="replay", dir=common.BUILD)
+        try:
+            inp = case.get("input")
+            if "input_pdf_base64" in rep:
+                inp = os.path.join(wd, "input.pdf")
+                open(inp, "wb").write(base64.b64decode(rep["input_pdf_base64"]))
+            argv = list(case.get("argv") or case.get("generation1"))
+            argv = [inp if a == case.get("input") else a for a in argv]
+            to_stdout = not any(a.endswith(".json") or a.endswith(".pdf") for a in argv[1:] if a != inp)
+            rc, so, se = common.run_qpdf(argv[1:], cwd=wd)
+            print("replayed: %s\n exit %s %s" % (" ".join(argv), rc, se.decode("latin-1")[-300:]))
+            outs = [os.path.join(wd, a) for a in argv[1:] if a.endswith(".json") and a != inp and os.path.exists(os.path.join(wd, a))]
+            texts = [open(o, "rb").read() for o in outs] or ([so] if to_stdout else [])
+            bad = rc not in (0, 3)
+            for t in texts:
+                pv, _ = strict_loads(t)
+                ev = common.run_lines(runner, ["jvalid " + hexs(t)])[0] if len(t) <= 150000 else "-"
+                print(" JSON output: %d bytes, json_verdict = %s, python = %s" % (len(t), ev, pv))
+                bad = bad or pv != 0 or ev not in ("0", "-")
+            if "generation1" in case and not bad and outs:
+                rc2, so2, se2 = common.run_qpdf(["--json-input", "--json-output", outs[0], "g2.json"], cwd=wd)
+                print(" --json-input --json-output: exit %s %s" % (rc2, se2.decode("latin-1")[-300:]))
+                bad = bad or rc2 not in (0, 3)
+            return 1 if bad else 0
+        finally:
+            shutil.rmtree(wd, ignore_errors=True)
     return 0
